@@ -95,6 +95,9 @@ pub enum Op {
     R { d: u8, h: u64 },
     /// `largest_center_to_vertex_distance(_with_radius)` (C16 slice; second table only).
     V { d: u8, lon: f64, lat: f64, r: Option<f64> },
+    /// `largest_center_to_vertex_distances_with_radius(from, to, ..)`: first-touches the constants
+    /// of every depth in `from.max(1)..to` (second table only).
+    W { from: u8, to: u8, lon: f64, lat: f64, r: f64 },
     /// crashing caller: `nested::hash(d, lon, 2.0)` -> must panic on the latitude check.
     Zh { d: u8, lon: f64 },
     /// crashing caller: `nested::center(d, n_hash(d))` -> must panic on the hash check.
@@ -113,6 +116,8 @@ impl Op {
             Op::Kc { d, dd, .. } | Op::Ec { d, dd, .. } => *d + *dd,
             // the invalid depth itself is 30; no valid slot is requested
             Op::Zd { .. } => 0,
+            // deepest depth of the half-open range
+            Op::W { to, .. } => to.saturating_sub(1),
         }
     }
     pub fn is_crash(&self) -> bool {
@@ -122,7 +127,7 @@ impl Op {
     /// bit 0 = LAYERS, bit 1 = CSTS_C2V.
     pub fn tables(&self) -> u8 {
         match self {
-            Op::V { .. } => 2,
+            Op::V { .. } | Op::W { .. } => 2,
             Op::K { .. } | Op::Kc { .. } | Op::E { .. } | Op::Ec { .. } => 3,
             _ => 1,
         }
@@ -132,14 +137,14 @@ impl Op {
             Op::L { .. } => "L", Op::H { .. } => "H", Op::G { .. } => "G", Op::N { .. } => "N",
             Op::K { .. } => "K", Op::Kc { .. } => "Kc", Op::E { .. } => "E", Op::P { .. } => "P",
             Op::X { .. } => "X", Op::B { .. } => "B", Op::R { .. } => "R", Op::V { .. } => "V",
-            Op::Zh { .. } => "Zh", Op::Zc { .. } => "Zc", Op::Zd { .. } => "Zd", Op::Ec { .. } => "Ec",
+            Op::Zh { .. } => "Zh", Op::Zc { .. } => "Zc", Op::Zd { .. } => "Zd", Op::Ec { .. } => "Ec", Op::W { .. } => "W",
         }
     }
 }
 
-pub const OP_KINDS: [&str; 16] = ["L", "H", "G", "N", "K", "Kc", "E", "P", "X", "B", "R", "V", "Zh", "Zc", "Zd", "Ec"];
+pub const OP_KINDS: [&str; 17] = ["L", "H", "G", "N", "K", "Kc", "E", "P", "X", "B", "R", "V", "Zh", "Zc", "Zd", "Ec", "W"];
 /// Kinds the swarm generator draws ordinary (non-crashing) ops from.
-pub const ORDINARY_KINDS: [usize; 13] = [0, 1, 2, 3, 4, 5, 6, 7, 8, 9, 10, 11, 15];
+pub const ORDINARY_KINDS: [usize; 14] = [0, 1, 2, 3, 4, 5, 6, 7, 8, 9, 10, 11, 15, 16];
 
 #[derive(Clone, Copy, Debug, PartialEq, Eq)]
 pub enum Start {
@@ -234,6 +239,7 @@ pub fn encode_op(op: &Op) -> String {
         Op::Zc { d } => format!("Zc,{}", d),
         Op::Zd { lon } => format!("Zd,{}", f(*lon)),
         Op::Ec { d, dd, lon, lat, a, b, pa } => format!("Ec,{},{},{},{},{},{},{}", d, dd, f(*lon), f(*lat), f(*a), f(*b), f(*pa)),
+        Op::W { from, to, lon, lat, r } => format!("W,{},{},{},{},{}", from, to, f(*lon), f(*lat), f(*r)),
     }
 }
 
@@ -266,6 +272,12 @@ pub fn decode_op(s: &str) -> Result<Op, String> {
         "Zc" => { need(2)?; Op::Zc { d: pu(p[1])? } }
         "Zd" => { need(2)?; Op::Zd { lon: pf(p[1])? } }
         "Ec" => { need(8)?; Op::Ec { d: pu(p[1])?, dd: pu(p[2])?, lon: pf(p[3])?, lat: pf(p[4])?, a: pf(p[5])?, b: pf(p[6])?, pa: pf(p[7])? } }
+        "W" => {
+            need(6)?;
+            let (from, to): (u8, u8) = (pu(p[1])?, pu(p[2])?);
+            if !(from < to && to <= 30) { return Err(format!("op '{}': bad depth range", s)); }
+            Op::W { from, to, lon: pf(p[3])?, lat: pf(p[4])?, r: pf(p[5])? }
+        }
         k => return Err(format!("unknown op kind '{}'", k)),
     };
     if op.depth() > 29 { return Err(format!("op '{}': depth > 29", s)); }
@@ -366,6 +378,7 @@ pub fn describe_op(op: &Op) -> String {
         Op::Zc { d } => format!("CRASH center({},n_hash)", d),
         Op::Zd { lon } => format!("CRASH hash(depth=30,{:.6},0.5)", lon),
         Op::Ec { d, dd, lon, lat, a, b, pa } => format!("elliptical_cone_coverage_custom({},{},{:.6},{:.6},{:.3e},{:.3e},{:.4})", d, dd, lon, lat, a, b, pa),
+        Op::W { from, to, lon, lat, r } => format!("largest_center_to_vertex_distances_with_radius({}..{},{:.6},{:.6},{:.3e})", from, to, lon, lat, r),
     }
 }
 
@@ -388,6 +401,10 @@ pub enum Profile {
     /// panics by design (latitude 2.0, hash == n_hash, depth 30) placed next to 2..=4 threads that
     /// first-use the same depth(s) with light ops; some threads arrive late.
     Crash,
+    /// Three or four threads first-using DIFFERENT, mostly disjoint depth ranges of the second
+    /// table (`largest_center_to_vertex_distances_with_radius` directly, or narrow cone queries at
+    /// well separated depths), some arriving late.
+    Ranges,
 }
 
 pub fn n_hash(d: u8) -> u64 {
@@ -475,6 +492,11 @@ fn gen_op(rng: &mut Rng, k: usize, d: u8, light: bool) -> Op {
         "Zh" => Op::Zh { d, lon },
         "Zc" => Op::Zc { d },
         "Zd" => Op::Zd { lon },
+        "W" => {
+            // a half-open range of 1..=4 depths ending at d (so the op first-touches d)
+            let len = rng.range(1, 4).min(d as u64 + 1) as u8;
+            Op::W { from: d + 1 - len, to: d + 1, lon, lat, r: rng.uniform(0.0, 0.2) }
+        }
         "Ec" => {
             let lat = lat.max(-1.5).min(1.5);
             let dd = if d >= 29 { 0 } else { rng.range(1, if light { 2 } else { 3 }).min((29 - d) as u64) as u8 };
@@ -492,8 +514,27 @@ pub const FAULT_CRASH: u8 = 2;
 pub const FAULT_LATE: u8 = 4;
 
 /// Coverage-centred scenarios (see [`Profile::Cover`]).
+/// Cover sub-profile: every thread issues ONE cone of unusual size (0.5 rad .. more than the
+/// whole sky) at the same shallow depth; the later threads often arrive late.
+fn generate_cover_big(rng: &mut Rng) -> Scenario {
+    let n_threads = rng.range(2, 3) as usize;
+    let d = rng.range(0, 4) as u8;
+    let mut threads = Vec::with_capacity(n_threads);
+    for ti in 0..n_threads {
+        let (lon, lat) = gen_pos(rng);
+        let r = rng.uniform(0.5, 3.3);
+        let op = if d < 4 && rng.chance(1, 4) { Op::Kc { d, dd: 1, lon, lat, r } } else { Op::K { d, lon, lat, r } };
+        let late = ti > 0 && rng.chance(1, 2);
+        threads.push(ThreadSpec { start: if late { Start::Late } else { Start::Line }, ops: vec![op] });
+    }
+    Scenario { threads, faults: Vec::new() }
+}
+
 fn generate_cover(seed: u64) -> Scenario {
     let mut rng = Rng::new(seed);
+    if rng.chance(1, 4) {
+        return generate_cover_big(&mut rng);
+    }
     let n_threads = rng.range(2, 3) as usize;
     let d = rng.range(3, 29) as u8;
     let (lon, lat) = gen_pos(&mut rng);
@@ -546,6 +587,41 @@ fn generate_cover(seed: u64) -> Scenario {
     Scenario { threads, faults }
 }
 
+/// Range-centred scenarios (see [`Profile::Ranges`]).
+fn generate_ranges(seed: u64) -> Scenario {
+    let mut rng = Rng::new(seed);
+    let n_threads = rng.range(3, 4) as usize;
+    let mut threads = Vec::with_capacity(n_threads);
+    for ti in 0..n_threads {
+        let n_ops = rng.range(1, 2) as usize;
+        let mut ops = Vec::with_capacity(n_ops);
+        for _ in 0..n_ops {
+            let (lon, lat) = gen_pos(&mut rng);
+            let from = rng.below(28) as u8;
+            let len = rng.range(1, 4) as u8;
+            let to = (from + len).min(30);
+            let op = match rng.below(6) {
+                0 => {
+                    // a narrow cone at depth to-1: its constants range is [best_starting_depth(r), to-1]
+                    let d = to - 1;
+                    Op::K { d, lon, lat: lat.max(-1.5).min(1.5), r: cell_size(d) * rng.uniform(0.8, 5.0) }
+                }
+                1 => Op::V { d: (to - 1).max(1), lon, lat, r: None },
+                _ => Op::W { from, to, lon, lat, r: rng.uniform(0.0, 0.3) },
+            };
+            ops.push(op);
+        }
+        let late = ti > 0 && rng.chance(1, 3);
+        threads.push(ThreadSpec { start: if late { Start::Late } else { Start::Line }, ops });
+    }
+    let mut faults = Vec::new();
+    if rng.chance(1, 2) {
+        let ti = rng.below(n_threads as u64) as u8;
+        faults.push(Fault::Stall { thread: ti, at_event: rng.range(1, 10) as u32, steps: rng.range(1, 30) as u32 });
+    }
+    Scenario { threads, faults }
+}
+
 /// Crash-centred scenarios (see [`Profile::Crash`]).
 fn generate_crash(seed: u64) -> Scenario {
     let mut rng = Rng::new(seed);
@@ -590,12 +666,15 @@ pub fn generate(seed: u64, profile: Profile) -> Scenario {
     if profile == Profile::Crash {
         return generate_crash(seed);
     }
+    if profile == Profile::Ranges {
+        return generate_ranges(seed);
+    }
     let mut rng = Rng::new(seed);
     let (max_threads, max_ops, light) = match profile {
         Profile::Full => (6u64, 4u64, false),
         Profile::Light => (5, 2, true),
         Profile::Tiny => (4, 1, true),
-        Profile::Cover | Profile::Crash => unreachable!(),
+        Profile::Cover | Profile::Crash | Profile::Ranges => unreachable!(),
     };
     // thread count: biased to small
     let n_threads = match rng.below(10) {
@@ -702,7 +781,7 @@ mod tests {
     use super::*;
     #[test]
     fn roundtrip() {
-        for p in [Profile::Full, Profile::Light, Profile::Tiny, Profile::Cover, Profile::Crash] {
+        for p in [Profile::Full, Profile::Light, Profile::Tiny, Profile::Cover, Profile::Crash, Profile::Ranges] {
             for s in 0..2000u64 {
                 let sc = generate(derive_seed(1, 2, s), p);
                 let txt = encode(&sc);
